@@ -1,3 +1,4 @@
+import Huginn.Drv.C01
 import Huginn.Drv.C07
 import Huginn.Drv.C10
 import Huginn.Drv.C14
@@ -5,6 +6,6 @@ import Huginn.Drv.C20
 namespace Huginn.Drv
 
 def allHandlers : List (String × (String → P Verdict)) :=
-  Huginn.Drv.C07.handlers ++ Huginn.Drv.C10.handlers ++ Huginn.Drv.C14.handlers ++ Huginn.Drv.C20.handlers
+  Huginn.Drv.C01.handlers ++ Huginn.Drv.C07.handlers ++ Huginn.Drv.C10.handlers ++ Huginn.Drv.C14.handlers ++ Huginn.Drv.C20.handlers
 
 end Huginn.Drv
